@@ -26,6 +26,7 @@ EXPLANATION = (
     "argsort(p), which the rewrite p[argsort(p)[m]] -> m reduces to natural order with no occurrence of "
     "p left; the seed reaches PRNGKey; the overridden state-action term equals ValueIteration's (same "
     "fixed point); no live code writes batch_order.  Does not decide which permutation a seed yields."
+    ' Also decides (R6.7) that nothing the sweep uses is cached in module-level / class-level containers or on the problem object (shared between solvers with other partitions).'
 )
 RULES = {
     "R6.1": "one evolving carry component (values); batch values = Bellman backup from the CARRIED values; carry' = masked scatter of them at state_to_index(rows)",
